@@ -222,6 +222,26 @@ def case_incidence(ctx, cfg):
     if e3 is not None or r1.shape != exact.shape or not np.array_equal(r1, exact):
         j = None if e3 is not None or r1.shape != exact.shape else tuple(int(x) for x in np.argwhere(r1 != exact)[0])
         ctx.fail(f"{what}:contains-after-transformation", "(t*S).contains(t*x)", {**inputs, "position": j}, "exact incidence", e3 if e3 is not None else "mismatch")
+        return
+    # a TransformationCollection of 70 similarities around the same scale (the kernels switch algorithm at 64 matrices),
+    # applied to one hyperplane and to some of its points and non-points
+    if g in SCALE_GENS and what in ("2d:line-point", "3d:plane-point"):
+        f0 = float(M[0][0])
+        mats = np.stack([np.diag([f0 * (1 + k / 100)] * dim + [1.0]) for k in range(70)])
+        tc = G.TransformationCollection(mats)
+        for i in range(0, ns, max(1, ns // 6)):
+            Si = S[i]
+            tSi, e = ctx.call(lambda: tc * Si)
+            if e is not None or np.asarray(tSi.array).shape[0] != 70:
+                ctx.fail(f"{what}:collection-of-70-similarities:{type(e).__name__ if e is not None else 'shape'}", "tc*S", {**inputs, "hyperplane": H[i]}, "70 hyperplanes", e if e is not None else list(np.asarray(tSi.array).shape))
+                return
+            for j in range(0, npts, max(1, npts // 8)):
+                tp, e = ctx.call(lambda: G.PointCollection(np.einsum("kij,j->ki", mats, P[j].astype(float))))
+                r, e2 = ctx.call(lambda: G.PlaneCollection(np.asarray(tSi.array)).contains(tp) if dim == 3 else G.LineCollection(np.asarray(tSi.array)).contains(tp))
+                ctx.trace(70)
+                if e2 is not None or not np.array_equal(np.asarray(r), np.full(70, exact[i, j])):
+                    ctx.fail(f"{what}:collection-of-70-similarities:contains", "(tc*S).contains(tc*x)", {**inputs, "hyperplane": H[i], "point": P[j]}, bool(exact[i, j]), e2 if e2 is not None else np.asarray(r))
+                    return
 
 
 # ---------------------------------------------------------------------------------------------------
